@@ -1,23 +1,22 @@
 #!/usr/bin/env python3
-"""Maintenance tool (not run by the checks): merge the measured per-obligation solver times of the
-last runs (evidence/*.json) into lib/costs.json. The checks use the table for load balancing, to
-defer obligations slower than 100 s from the quick to the thorough tier, and to EXCLUDE obligations
-the installed solvers could not decide within the thorough timeout (listed in every evidence file
-under `excluded_undecided`, never counted as proved)."""
+"""Maintenance tool (not run by the checks): merge measured per-obligation solver times into
+lib/costs.json.  usage: lib/costs.py [--reset] [--mark-undecided] [evidence.json ...]  (default: evidence/*.json)
+The checks use the table for load balancing, to defer obligations slower than 150 s from the quick
+to the thorough tier, and to EXCLUDE obligations marked "undecided" (not decided by the installed
+solvers within the thorough timeout; listed in every evidence file under `excluded_undecided`)."""
 import json, os, glob, sys
 V = os.path.dirname(os.path.dirname(os.path.abspath(__file__)))
 p = os.path.join(V, "lib", "costs.json")
-costs = json.load(open(p)) if os.path.exists(p) else {}
-for f in glob.glob(os.path.join(V, "evidence", "*.json")):
+args = [a for a in sys.argv[1:] if not a.startswith("--")]
+costs = {} if "--reset" in sys.argv else (json.load(open(p)) if os.path.exists(p) else {})
+files = args or glob.glob(os.path.join(V, "evidence", "*.json"))
+for f in files:
     e = json.load(open(f))
     for r in e["coverage"].get("per_obligation", []):
         n = r["ob"]
         if r["verdict"].startswith("undecided:timeout"):
-            if "--mark-undecided" in sys.argv:
-                costs[n] = "undecided"
+            costs[n] = "undecided" if "--mark-undecided" in sys.argv else 999.0
         elif r.get("time_s") is not None and r["verdict"] in ("discharged", "canary-refuted", "known-finding"):
-            old = costs.get(n)
-            t = round(float(r["time_s"]), 1)
-            costs[n] = t if not isinstance(old, (int, float)) else round(max(old * 0.5 + t * 0.5, t), 1)
+            costs[n] = round(float(r["time_s"]), 1)
 json.dump(costs, open(p, "w"), indent=0, sort_keys=True)
-print(len(costs), "entries")
+print(len(costs), "entries;", sum(1 for v in costs.values() if isinstance(v, float) and v > 150), "over 150 s;", sum(1 for v in costs.values() if v == "undecided"), "undecided")
